@@ -11,14 +11,16 @@
 //
 // case header: cfgtok=<enc> secrets=<enc,..>   (secrets: shard addresses and rule/config markers the
 //              data responses contain; the monitor scans error bodies for them)
-// op:          q via=<router|mw> tmpl=<enc> path=<enc> hdr=<none|one|two> tok=<enc> tok2=<enc>
+// op:          q via=<router|mw> m=<METHOD> dm=<0|1> tmpl=<enc> path=<enc> hdr=<none|one|two> tok=<enc> tok2=<enc>
 //                (via=router: the real mux; via=mw: one instance of queryTokenChecker built when the case starts)
+//                (dm=1: the walked route accepts this method)
 //              reload tok=<enc>   the configured token changes while the router keeps running (no obs)
 // ext:         secrets <status> = <n>          number of the secrets the response body contains
 //              ni = <0|1>                      (refusals with a configured token only) the same request against a
 //                                              different, also non-matching configured token gives the identical response
 // obs:         class=error st=<n> body=<enc>   the token checker's refusal (status and JSON shape of ErrAuthNeeded)
 //              class=data                      anything the route's own handler produced
+//              class=proxied st=<n>            relayed answer of the stub upstream (the router did not handle the request)
 //              class=other st=<n> body=<enc>   anything else (404, 405, 500 …)
 package main
 
@@ -62,6 +64,21 @@ var secrets = []string{selfAddr, peerAddr, ruleMark, fieldMark, cfgIDMark, cfgHa
 
 var formats = []string{"json", "yaml", "toml", "JSON", "xml"}
 
+// methods of the request grid; which of them the /query routes accept is read off the walked mux
+var methods = []string{"GET", "HEAD", "POST", "PUT", "DELETE", "PATCH", "OPTIONS"}
+
+const upstreamMark = "X-Verif-Upstream"
+
+// stubUpstream stands for the Honeycomb API: requests the router does not handle itself are proxied
+// there.  Its answer carries a marker header so that it is never mistaken for query data.
+func stubUpstream() *httptest.Server {
+	return httptest.NewServer(http.HandlerFunc(func(w http.ResponseWriter, req *http.Request) {
+		w.Header().Set(upstreamMark, req.Method)
+		w.Header().Set("Content-Type", "application/json")
+		w.Write([]byte(`{"upstream":"stub"}`))
+	}))
+}
+
 type world struct {
 	conf    *config.MockConfig
 	router  *route.Router
@@ -80,7 +97,7 @@ func getWorld() *world {
 		w.conf = &config.MockConfig{
 			GetListenAddrVal:     "127.0.0.1:0",
 			GetPeerListenAddrVal: "127.0.0.1:0",
-			GetHoneycombAPIVal:   "http://upstream.invalid",
+			GetHoneycombAPIVal:   stubUpstream().URL,
 			GetSamplerTypeName:   "RulesBasedSampler",
 			GetSamplerTypeVal: &config.RulesBasedSamplerConfig{Rules: []*config.RulesBasedSamplerRule{{
 				Name:       ruleMark,
@@ -330,22 +347,70 @@ var reloadClasses = []string{"other-token", "cleared", "whitespace-only"}
 
 const mwTmpl = "middleware-instance" // requests served by ONE kept instance of the middleware (built before the reload)
 
-func phaseOps(reqs []tokreq) []string {
+// reduced: the request tokens sent with the methods the /query routes do not accept, and with every
+// non-GET method to the kept middleware instance: absent, empty, exact, different, rotated-out
+func reduced(r *kit.Rng, cfg, old string) []tokreq {
+	reqs := []tokreq{{"none", "", ""}, {"one", "", ""}}
+	other := randToken(r, 8)
+	for other == cfg || other == old {
+		other = randToken(r, 8)
+	}
+	reqs = append(reqs, tokreq{"one", other, ""})
+	// a token with a line break is not a valid HTTP field value: the proxy route cannot relay it
+	// (net/http refuses the upstream request, 503) — that is the proxy's behaviour, not a /query answer
+	relayable := func(t string) bool { return !strings.ContainsAny(t, "\r\n") }
+	if cfg != "" && relayable(cfg) {
+		reqs = append(reqs, tokreq{"one", cfg, ""})
+	}
+	if old != "" && old != cfg && relayable(old) {
+		reqs = append(reqs, tokreq{"one", old, ""})
+	}
+	return reqs
+}
+
+func phaseOps(reqs, red []tokreq) []string {
 	var ops []string
-	add := func(via, tmpl, path string, q tokreq) {
-		ops = append(ops, fmt.Sprintf("q via=%s tmpl=%s path=%s hdr=%s tok=%s tok2=%s", via, kit.Enc(tmpl), kit.Enc(path), q.hdr, kit.Enc(q.tok), kit.Enc(q.tok2)))
+	add := func(via, m string, dm bool, tmpl, path string, q tokreq) {
+		ops = append(ops, fmt.Sprintf("q via=%s m=%s dm=%d tmpl=%s path=%s hdr=%s tok=%s tok2=%s", via, m, b01(dm), kit.Enc(tmpl), kit.Enc(path), q.hdr, kit.Enc(q.tok), kit.Enc(q.tok2)))
 	}
 	for _, rt := range queryRoutes() {
+		accepts := func(m string) bool {
+			for _, x := range rt.methods {
+				if x == m {
+					return true
+				}
+			}
+			return len(rt.methods) == 0 // a route without a method matcher accepts every method
+		}
 		for _, p := range instantiate(rt.tmpl) {
-			for _, q := range reqs {
-				add("router", rt.tmpl, p, q)
+			for _, m := range methods {
+				qs := red
+				if accepts(m) {
+					qs = reqs // the full token grid on every method the route accepts
+				}
+				for _, q := range qs {
+					add("router", m, accepts(m), rt.tmpl, p, q)
+				}
 			}
 		}
 	}
-	for _, q := range reqs {
-		add("mw", mwTmpl, "/query/kept-instance", q)
+	for _, m := range methods {
+		qs := red
+		if m == "GET" {
+			qs = reqs
+		}
+		for _, q := range qs {
+			add("mw", m, true, mwTmpl, "/query/kept-instance", q)
+		}
 	}
 	return ops
+}
+
+func b01(b bool) int {
+	if b {
+		return 1
+	}
+	return 0
 }
 
 func (comp) Gen(r *kit.Rng, maxLen int, tier string) kit.Case {
@@ -373,9 +438,9 @@ func (comp) Gen(r *kit.Rng, maxLen int, tier string) kit.Case {
 			cfg2 = configuredToken(r, "ordinary", false)
 		}
 	}
-	ops := phaseOps(requestTokens(r, cfg, ""))
+	ops := phaseOps(requestTokens(r, cfg, ""), reduced(r, cfg, ""))
 	ops = append(ops, "reload tok="+kit.Enc(cfg2))
-	ops = append(ops, phaseOps(requestTokens(r, cfg2, cfg))...)
+	ops = append(ops, phaseOps(requestTokens(r, cfg2, cfg), reduced(r, cfg2, cfg))...)
 	enc := make([]string, len(secrets))
 	for i, s := range secrets {
 		enc[i] = kit.Enc(s)
@@ -427,7 +492,11 @@ func (r *runner) Do(op []string) (string, bool) {
 		return "bad-op", true
 	}
 	path := kit.Dec(kit.KV(op, "path"))
-	req := httptest.NewRequest("GET", path, nil)
+	method := kit.KV(op, "m")
+	if method == "" {
+		method = "GET"
+	}
+	req := httptest.NewRequest(method, path, nil)
 	switch kit.KV(op, "hdr") {
 	case "one":
 		req.Header[types.QueryTokenHeader] = []string{kit.Dec(kit.KV(op, "tok"))}
@@ -454,7 +523,7 @@ func (r *runner) Do(op []string) (string, bool) {
 			alt = cfg + "~alt2"
 		}
 		r.setToken(alt)
-		req2 := httptest.NewRequest("GET", path, nil)
+		req2 := httptest.NewRequest(method, path, nil)
 		req2.Header = req.Header.Clone()
 		rec2 := httptest.NewRecorder()
 		handler.ServeHTTP(rec2, req2)
@@ -466,6 +535,9 @@ func (r *runner) Do(op []string) (string, bool) {
 		kit.Ext("ni = %d", same)
 	}
 	switch {
+	case rec.Header().Get(upstreamMark) != "":
+		// not handled by the router itself: relayed answer of the (stub) upstream API
+		return fmt.Sprintf("class=proxied st=%d", rec.Code), true
 	case isErr:
 		return fmt.Sprintf("class=error st=%d body=%s", rec.Code, kit.Enc(body)), true
 	case rec.Code >= 200 && rec.Code < 300:
@@ -479,12 +551,28 @@ func (r *runner) Do(op []string) (string, bool) {
 
 func (r *runner) Close() {}
 
+func leanSorted(m map[string]bool) string {
+	var xs []string
+	for k := range m {
+		xs = append(xs, fmt.Sprintf("%q", k))
+	}
+	sort.Strings(xs)
+	return "[" + strings.Join(xs, ", ") + "] ++ ([] : List String)"
+}
+
 func facts() map[string]string {
 	msg, status := route.VerifAuthErrAuthNeeded()
 	rts := queryRoutes()
 	var names []string
 	outside := 0
+	mset := map[string]bool{}
 	for _, rt := range rts {
+		for _, m := range rt.methods {
+			mset[m] = true
+		}
+		if len(rt.methods) == 0 {
+			mset["*"] = true
+		}
 		names = append(names, fmt.Sprintf("%q", rt.tmpl))
 		if rt.outside {
 			outside++
@@ -494,6 +582,7 @@ func facts() map[string]string {
 		"queryTokenHeader":            types.QueryTokenHeader,
 		"errAuthNeededMsg":            msg,
 		"errAuthNeededStatus":         fmt.Sprint(status),
+		"queryMethods":                leanSorted(mset),
 		"queryRouteCount":             fmt.Sprint(len(rts)),
 		"queryRoutesOutsideSubrouter": fmt.Sprint(outside),
 		"queryRoutes":                 "[" + strings.Join(names, ", ") + "] ++ ([] : List String)",
